@@ -289,3 +289,45 @@ func VerifC17Flags() {
 	verifnd.Reach("C17.done")
 	verifnd.Reach("C17.kind." + kn)
 }
+
+// VerifC17LastLeave: under every single flag (and none, and an unknown name) the life of a session is the
+// same: when its last participant leaves — by disconnecting or by switching away — it ends, its id stops
+// resolving and the session gauge is back, and a later join to that id is refused as NOT_FOUND.
+func VerifC17LastLeave() {
+	w := newVWorld(0)
+	k := verifnd.Choice(12)
+	name := "none"
+	switch {
+	case k < 10:
+		name = flagName(k)
+		w.flags = featureflag.New([]string{name})
+	case k == 10:
+		name = "unknown"
+		w.flags = featureflag.New([]string{"DISABLE_NOTHING_KNOWN"})
+	}
+	g0 := verifnd.Gauge("session_count")
+	x, y := w.newConn(), w.newConn()
+	x.mustJoin("")
+	sid := x.sid
+	x.addEntity(false, &hagallpb.Pose{})
+	if verifnd.Bool() {
+		x.rh.HandleDisconnect(nil)
+	} else {
+		x.mustJoin("")
+	}
+	_, alive := w.store.GetByGlobalID(sid)
+	if x.sid != sid {
+		verifnd.Assert(!alive, "C17.last_leave.session_ends_under_every_flag", name)
+	}
+	live := int64(0)
+	if x.rh.CurrentSession() != nil {
+		live = 1
+	}
+	verifnd.Assert(verifnd.Gauge("session_count")-g0 == live, "C17.last_leave.gauge_under_every_flag", name)
+	if x.sid != sid {
+		y.pid = 0
+		y.join(sid, 3)
+		verifnd.Assert(y.pid == 0, "C17.last_leave.ended_session_not_joinable", name)
+	}
+	verifnd.Reach("C17.last_leave.done")
+}
